@@ -156,7 +156,7 @@ func canonUpdates(us []abcitypes.ValidatorUpdate) string {
 	return fmt.Sprintf("%d/%s", len(us), short([]byte(strings.Join(xs, ","))))
 }
 
-func deliver(c *abci.Chain, t TxSpec) TxObs {
+func deliver(c *abci.Chain, t TxSpec, off *offConsensus) TxObs {
 	o := TxObs{Kind: t.Kind}
 	defer func() {
 		msgSeenMu.Lock()
@@ -176,8 +176,14 @@ func deliver(c *abci.Chain, t TxSpec) TxObs {
 		o.Code, o.Result, o.Log = 1<<30, "build-error", err.Error()
 		return o
 	}
+	if off != nil {
+		off.beforeTx(bz)
+	}
 	var r abcitypes.ResponseDeliverTx
 	o.Panic = hx.Try(func() { r = c.App.DeliverTx(abcitypes.RequestDeliverTx{Tx: bz}) })
+	if off != nil {
+		off.afterTx(bz, t.Msgs)
+	}
 	if o.Panic != "" {
 		c.Panics = append(c.Panics, fmt.Sprintf("h%d DeliverTx: %s", c.Height, o.Panic))
 	}
@@ -234,6 +240,17 @@ func runReplica(h *History, r int) []BlockObs {
 	db := dbm.NewMemDB()
 	c := newChainOn(h.Cfg, db)
 	var out []BlockObs
+	var off *offConsensus
+	if r == 1 {
+		off = newOffConsensus(c, h)
+		defer func() {
+			offMu.Lock()
+			for k, v := range off.stats {
+				offStats[k] += v
+			}
+			offMu.Unlock()
+		}()
+	}
 	for bi, b := range h.Blocks {
 		if r == 2 && bi > 0 && bi == (len(h.Blocks)+1)/2 {
 			c = restart(c, db)
@@ -249,8 +266,15 @@ func runReplica(h *History, r int) []BlockObs {
 			}
 		}
 		o := BlockObs{Height: c.Height}
-		for _, t := range b.Txs {
-			o.Txs = append(o.Txs, deliver(c, t))
+		for ti, t := range b.Txs {
+			o.Txs = append(o.Txs, deliver(c, t, off))
+			if off != nil && ti == 0 {
+				off.sweep() // every query method of every module, in the middle of the block
+				off.unrelated(bi)
+			}
+		}
+		if off != nil && len(b.Txs) == 0 {
+			off.sweep()
 		}
 		e := c.EndBlock()
 		o.Hash = e.AppHash
@@ -445,6 +469,9 @@ func emitReplicaCase(h *History, obs [][]BlockObs, seed uint64) (string, jCase) 
 
 // ---------------------------------------------------------------- message coverage
 
+var offStats = hx.Counter{} // off-consensus activity of replica 1 (all histories)
+var offMu sync.Mutex
+
 var msgSeen = map[string][2]int{} // type URL -> delivered and accepted / rejected (all replicas)
 var msgSeenMu sync.Mutex
 
@@ -572,6 +599,6 @@ func main() {
 	out.WriteFile("cases.txt", strings.Join(coq, "\n")+"\n")
 	out.WriteJSON("meta.json", map[string]string{"case_type": "c01_case", "mismatch_fn": "c01_mismatches", "violation_fn": "c01_violations"})
 	out.WriteJSON("cases.json", js)
-	out.WriteJSON("dist.json", map[string]interface{}{"seed": seed, "cases": len(js), "replicas": *k, "counts": dist, "message_types_per_module": mcov, "harness_seconds": time.Since(t0).Seconds()})
+	out.WriteJSON("dist.json", map[string]interface{}{"seed": seed, "cases": len(js), "replicas": *k, "counts": dist, "message_types_per_module": mcov, "off_consensus_activity_replica_1": offStats, "query_methods": len(allQueries), "harness_seconds": time.Since(t0).Seconds()})
 	fmt.Fprintf(os.Stderr, "c01: %d cases in %.1fs\n", len(js), time.Since(t0).Seconds())
 }
